@@ -25,6 +25,7 @@ type Obligation struct {
 	Raw    string // raw SMT-LIB text (bit-vector lemmas); replaces the generated query
 	Expect string // "unsat" normally; "sat" for must-fail twins / covers
 	Vars   []string // interesting model vars
+	Block  *ssa.BasicBlock
 }
 
 // State is the symbolic state at a program point.
@@ -111,6 +112,10 @@ type FuncVC struct {
 	lemmaName   string
 	tablesUsed  map[string]bool
 	inFinish    bool
+	strictState *State
+	heapType    map[string]types.Type
+	assertBlk   []int // block index during which each assert was emitted (-1: global)
+	anc         map[int]map[int]bool
 }
 
 type deferred struct {
@@ -189,6 +194,33 @@ func (fv *FuncVC) assume(t Term) {
 		return
 	}
 	fv.asserts = append(fv.asserts, t.S)
+	b := -1
+	if fv.curBlock != nil {
+		b = fv.curBlock.Index
+	}
+	fv.assertBlk = append(fv.assertBlk, b)
+}
+
+// ancestors returns the set of blocks from which block b is reachable along
+// forward (non-back) edges, including b itself.
+func (fv *FuncVC) ancestors(b *ssa.BasicBlock) map[int]bool {
+	if fv.anc == nil {
+		fv.anc = map[int]map[int]bool{}
+	}
+	if a, ok := fv.anc[b.Index]; ok {
+		return a
+	}
+	a := map[int]bool{b.Index: true}
+	fv.anc[b.Index] = a
+	for _, p := range b.Preds {
+		if fv.isBackEdge(p, b) {
+			continue
+		}
+		for k := range fv.ancestors(p) {
+			a[k] = true
+		}
+	}
+	return a
 }
 
 // assumeHere assumes t under the current reachability condition.
@@ -230,6 +262,7 @@ func (fv *FuncVC) oblige(kind string, what string, cond Term, pos token.Pos, not
 		Note:   note,
 		Func:   fv,
 		Expect: "unsat",
+		Block:  fv.curBlock,
 	}
 	fv.Obls = append(fv.Obls, o)
 	fv.assumeHere(cond)
@@ -241,12 +274,19 @@ func (fv *FuncVC) heap(s *State, name, elemSort string) Term {
 	if t, ok := s.heaps[name]; ok {
 		return t
 	}
+	if s == fv.strictState && s != nil {
+		fv.abort("opaque spec function reads heap %s, which is not in its reads clause", name)
+	}
 	as := arrSort(elemSort)
 	if old, ok := fv.heapSort[name]; ok && old != as {
 		fv.errorf("heap %s used at two sorts %s / %s", name, old, as)
 	}
 	fv.heapSort[name] = as
+	first := !fv.declared[name+"@0"]
 	t := fv.declare(name+"@0", as)
+	if first {
+		fv.heapTyping(name, t)
+	}
 	return t
 }
 
@@ -260,7 +300,9 @@ func (fv *FuncVC) newHeapVersion(name string) Term {
 	if as == "" {
 		as = SHeap
 	}
-	return fv.freshConst(name, as)
+	t := fv.freshConst(name, as)
+	fv.heapTyping(name, t)
+	return t
 }
 
 // ---------------------------------------------------------------------------
@@ -274,11 +316,50 @@ func (fv *FuncVC) scalarHeapName(t types.Type) string {
 			return "M"
 		}
 	}
-	return "P." + mangle(shortTypeName(t))
+	n := "P." + mangle(shortTypeName(t))
+	if fv.heapType == nil {
+		fv.heapType = map[string]types.Type{}
+	}
+	fv.heapType[n] = t
+	return n
 }
 
 func (fv *FuncVC) fieldHeapName(st types.Type, field string) string {
-	return "H." + mangle(shortTypeName(st)) + "." + mangle(field)
+	n := "H." + mangle(shortTypeName(st)) + "." + mangle(field)
+	if fv.heapType == nil {
+		fv.heapType = map[string]types.Type{}
+	}
+	if _, ok := fv.heapType[n]; !ok {
+		if s, ok := st.Underlying().(*types.Struct); ok {
+			for i := 0; i < s.NumFields(); i++ {
+				if s.Field(i).Name() == field {
+					fv.heapType[n] = s.Field(i).Type()
+				}
+			}
+		}
+	}
+	return n
+}
+
+// heapTyping asserts that every cell of a typed heap version holds a value of its Go type.
+func (fv *FuncVC) heapTyping(name string, h Term) {
+	t, ok := fv.heapType[name]
+	if !ok || name == "M" {
+		return
+	}
+	cell := Term{S: "(select " + h.S + " a!y)", Sort: elemSortOf(h.Sort)}
+	f := fv.TE.rangeFact(cell, t)
+	if f.S == "true" {
+		return
+	}
+	ax := fmt.Sprintf("(forall ((a!y Int)) (! %s :pattern ((select %s a!y))))", f.S, h.S)
+	if fv.inFinish {
+		fv.axioms = append(fv.axioms, ax)
+	} else {
+		// typing facts are global (not tied to a block)
+		fv.asserts = append(fv.asserts, ax)
+		fv.assertBlk = append(fv.assertBlk, -1)
+	}
 }
 
 // ---------------------------------------------------------------------------
